@@ -1,0 +1,8 @@
+//go:build !verif
+
+package wsjson
+
+import "nhooyr.io/websocket"
+
+// Verification hooks are compiled out unless the "verif" build tag is set.
+func vBuf(c *websocket.Conn, ev string, b interface{}) {}
